@@ -107,3 +107,27 @@ func VerifH14e() {
 	sym.CheckLeaks()
 	sym.Reached("C14/abandon/end")
 }
+
+// VerifH15e: a concurrent operator whose child fails at batch e while the consumer is
+// slower or faster than the producer (every schedule with bounded preemptions; the
+// prefetch buffer holds 2 batches, the child has 4): the consumer receives the batches
+// before the failure and then the child's error - never a clean end of stream.
+func VerifH15e() {
+	B := 4
+	t0 := sym.Int64("t0", -verifR, verifR)
+	ops, _ := verifChildrenFull(1, B, t0)
+	failAt := 1 + sym.Choice("failAt", 3)
+	ops[0].NextErrAt = failAt
+	ops[0].NextErr = stub.ErrInjected
+	op := NewConcurrent(ops[0], 2)
+	ctx, cancel := context.WithCancel(context.Background())
+	n, err := verifConsume(ctx, op, B)
+	sym.Assert("C15/concurrent/child-error-surfaces", err != nil)
+	if err != nil {
+		sym.Assert("C15/concurrent/error-is-the-childs", err == stub.ErrInjected)
+		sym.Assert("C15/concurrent/batches-before-error", n == failAt)
+	}
+	cancel()
+	sym.CheckLeaks()
+	sym.Reached("C15/concurrent/end")
+}
